@@ -4,6 +4,7 @@ import (
 	"fmt"
 	"go/token"
 	"go/types"
+	"os"
 	"regexp"
 	"sort"
 	"strings"
@@ -1181,6 +1182,48 @@ func ruleInherit(rule string) RuleFn {
 				}
 			}
 		})
+		// state pushed down the tree: a field that some function writes on the DESCENDANTS of a scope (a store whose
+		// base is an element of appendSubscopes(...) or childScopes) describes the subtree, so a scope created later
+		// below the same ancestor must start with it: Scope.Scope assigns the field on the new child as well
+		assigned := map[string]bool{}
+		an.Instrs(sc, func(in ssa.Instruction) {
+			if st, ok := in.(*ssa.Store); ok {
+				if a := an.Norm(st.Addr); strings.HasPrefix(a, "&dig.newScope().") {
+					assigned[strings.TrimPrefix(a, "&dig.newScope().")] = true
+				}
+			}
+		})
+		nDown := 0
+		for _, fn := range c.P.Funcs {
+			if fn.Pkg != c.P.Dig || fn == sc {
+				continue
+			}
+			an.Instrs(fn, func(in ssa.Instruction) {
+				st, ok := in.(*ssa.Store)
+				if !ok {
+					return
+				}
+				fa, ok := st.Addr.(*ssa.FieldAddr)
+				if !ok || !an.IsDigNamed(fa.X.Type(), "Scope") {
+					return
+				}
+				base := an.Norm(fa.X)
+				if os.Getenv("VERIF_DEBUG_FACTS") == "scope-stores" {
+					fmt.Fprintln(os.Stderr, "scope-store:", an.ShortName(fn), base, an.FieldName(fa.X.Type(), fa.Field))
+				}
+				if !strings.Contains(base, "appendSubscopes(") && !strings.Contains(base, ".childScopes") {
+					return
+				}
+				f := an.FieldName(fa.X.Type(), fa.Field)
+				nDown++
+				if f == "isVerifiedAcyclic" {
+					// reasoned exception: the zero value means "not verified yet" and forces a verification
+					c.OK(rule, "Scope."+f+" (written on the descendants of a scope in "+an.ShortName(fn)+") is set for scopes created later", "reasoned exception: a new scope starts unverified, the safe default", st)
+					return
+				}
+				c.Check(assigned[f], rule, "Scope."+f+" (written on the descendants of a scope in "+an.ShortName(fn)+") is set for scopes created later", "assigned on the new child in Scope.Scope", "Scope."+f+" is pushed down to the scopes that exist when "+an.ShortName(fn)+" runs, but a scope created afterwards starts with the zero value: what the field says about the subtree depends on the order of scope creation and registration (root.Decorate(f); child := root.Scope(...) behaves unlike child := root.Scope(...); root.Decorate(f))", st, nil)
+			})
+		}
 		var fields []string
 		for f := range set {
 			fields = append(fields, f)
